@@ -33,6 +33,17 @@ def strip_none(d):
     return d
 
 
+def covers(got, value):
+    """`got` carries everything of `value`; what it carries in addition is None or the default of Sub.d (10), i.e. what the
+    model / the server fills in for members the caller did not give"""
+    if isinstance(value, dict) and isinstance(got, dict):
+        return all(k in got and covers(got[k], v) for k, v in value.items()) and \
+            all(got[k] is None or (k == "d" and got[k] == 10) for k in got if k not in value)
+    if isinstance(value, list) and isinstance(got, list):
+        return len(value) == len(got) and all(covers(g, v) for g, v in zip(got, value))
+    return got == value
+
+
 def main():
     P = load_payload()
     pkg = import_pkg(P["package"])
@@ -92,7 +103,7 @@ def main():
                 continue
             got = plain(getattr(m, pyname))
             if given == "value":
-                rb = "value" if (got == value or strip_none(got) == strip_none(value)) else "wrong"
+                rb = "value" if (got == value or covers(got, value)) else "wrong"
             elif given == "null":
                 rb = "null" if got is None else "wrong"
             elif ref_default == "@absent":
@@ -107,7 +118,7 @@ def main():
                 dm = "absent"
             else:
                 dv = plain(d[gname])
-                dm = "null" if dv is None else ("value" if (dv == value or strip_none(dv) == strip_none(value)) or given != "value" else "wrong")
+                dm = "null" if dv is None else ("value" if (dv == value or covers(dv, value)) or given != "value" else "wrong")
             rec["events"].append({"e": "dumped", "dumped": dm})
             seen.clear()
             meth = getattr(client, methods[f"q{idx}"])
@@ -122,7 +133,7 @@ def main():
                 else:
                     x = kw[gname]
                     if given == "value":
-                        sv = "value" if strip_none(x) == strip_none(value) else "wrong"
+                        sv = "value" if covers(x, value) else "wrong"
                     elif given == "null":
                         sv = "null" if x is None else "wrong"
                     else:
